@@ -103,7 +103,7 @@ from spsdk.utils.misc import load_binary, load_hex_string  # noqa: E402
 
 @assumed("spsdk.utils.misc:load_binary", reason="file system access; returns the file content")
 def _(path: Opaque(), search_paths: Opaque()) -> bytes:
-    pass
+    pure()
 
 
 @assumed("spsdk.utils.misc:load_hex_string", reason="string/file front end; with a source given it returns the user's bytes of the expected size")
